@@ -36,6 +36,8 @@ pub struct Shared {
     pub ran: AtomicBool,
     /// completed on_run invocations
     pub ticks: AtomicUsize,
+    /// CallBack handlers that finished (with the result of their ask: 1 = Ok)
+    pub callbacks: Mutex<Vec<u64>>,
 }
 
 pub struct RaceActor {
@@ -50,6 +52,14 @@ pub struct Start;
 pub struct Poke;
 /// busy for the given number of microseconds (really), measured from inside
 pub struct Work(pub u64);
+/// ask the next actor `Serve`
+pub struct StartServe;
+/// tell oneself `CallBack`, then answer
+pub struct Serve;
+/// ask the next actor `Poke`
+pub struct CallBack;
+/// ask the next actor `Poke` n times in a row (background load on the wait-for graph)
+pub struct Loop(pub u32);
 
 pub fn reply_of(id: u32) -> u64 {
     id as u64 * 7 + 1
@@ -127,6 +137,59 @@ impl Message<Work> for RaceActor {
     }
 }
 
+impl Message<StartServe> for RaceActor {
+    type Reply = u64;
+    async fn handle(&mut self, _m: StartServe, _r: &ActorRef<Self>) -> u64 {
+        let next = self.sh.next.lock().unwrap().as_ref().and_then(|w| w.upgrade());
+        match next {
+            None => 0,
+            Some(n) => match n.ask(Serve).await {
+                Ok(_) => 1,
+                Err(_) => 2,
+            },
+        }
+    }
+}
+
+impl Message<Serve> for RaceActor {
+    type Reply = u64;
+    async fn handle(&mut self, _m: Serve, r: &ActorRef<Self>) -> u64 {
+        let _ = r.tell(CallBack).await;
+        7
+    }
+}
+
+impl Message<CallBack> for RaceActor {
+    type Reply = ();
+    async fn handle(&mut self, _m: CallBack, _r: &ActorRef<Self>) {
+        let next = self.sh.next.lock().unwrap().as_ref().and_then(|w| w.upgrade());
+        let res = match next {
+            None => 0,
+            Some(n) => match n.ask(Poke).await {
+                Ok(_) => 1,
+                Err(_) => 2,
+            },
+        };
+        self.sh.callbacks.lock().unwrap().push(res);
+    }
+}
+
+impl Message<Loop> for RaceActor {
+    type Reply = u64;
+    async fn handle(&mut self, m: Loop, _r: &ActorRef<Self>) -> u64 {
+        let next = self.sh.next.lock().unwrap().as_ref().and_then(|w| w.upgrade());
+        let mut ok = 0;
+        if let Some(n) = next {
+            for _ in 0..m.0 {
+                if n.ask(Poke).await.is_ok() {
+                    ok += 1;
+                }
+            }
+        }
+        ok
+    }
+}
+
 impl Message<Poke> for RaceActor {
     type Reply = u64;
     async fn handle(&mut self, _m: Poke, _r: &ActorRef<Self>) -> u64 {
@@ -156,7 +219,7 @@ impl Rng {
 }
 
 fn spawn_actor(rt: &tokio::runtime::Runtime, cap: usize, run_mode: u8, spin: u32) -> (ActorRef<RaceActor>, tokio::task::JoinHandle<ActorResult<RaceActor>>, Arc<Shared>, tokio::sync::watch::Sender<bool>) {
-    let sh = Arc::new(Shared { handled: Mutex::new(vec![]), on_stop: Mutex::new(vec![]), spin, next: Mutex::new(None), meet: Mutex::new(None), max_inner_ns: std::sync::atomic::AtomicU64::new(0), ran: AtomicBool::new(false), ticks: AtomicUsize::new(0) });
+    let sh = Arc::new(Shared { handled: Mutex::new(vec![]), on_stop: Mutex::new(vec![]), spin, next: Mutex::new(None), meet: Mutex::new(None), max_inner_ns: std::sync::atomic::AtomicU64::new(0), ran: AtomicBool::new(false), ticks: AtomicUsize::new(0), callbacks: Mutex::new(vec![]) });
     let (tx, rx) = tokio::sync::watch::channel(false);
     let _g = rt.enter();
     let (r, jh) = rsactor::spawn_with_mailbox_capacity::<RaceActor>((sh.clone(), rx, run_mode), cap);
@@ -331,6 +394,70 @@ fn drop_race_round(rt: &tokio::runtime::Runtime, rng: &mut Rng, cfg: &mut String
                 let want: Vec<u32> = std::iter::once(1).chain((0..tells).map(|t| 10 + t)).collect();
                 if handled != want {
                     return bad("C01", "accepted-not-handled", format!("actor {i}: tells {want:?} were accepted before the last reference was dropped, handled {handled:?}"));
+                }
+            }
+        }
+    }
+    None
+}
+
+// ---------------------------------------------------------------------------------------------
+// kill is the only thing that ends the actor
+// ---------------------------------------------------------------------------------------------
+/// 1-4 threads kill a busy (re-arming on_run) or idle actor that nobody stops and whose handle is
+/// kept: every kill() is Ok (C06), on_stop runs exactly once with killed=true (C04) and the result
+/// is Completed with killed=true (C05).
+fn killonly_round(rt: &tokio::runtime::Runtime, rng: &mut Rng, cfg: &mut String) -> Option<Bad> {
+    let k = 1 + rng.below(6) as usize;
+    let threads = 1 + rng.below(4) as usize;
+    let run_mode = if rng.below(4) == 0 { 0 } else { 1 };
+    *cfg = format!("killonly:k{k}:threads{threads}:run{run_mode}");
+    let mut actors = vec![];
+    for _ in 0..k {
+        let a = spawn_actor(rt, 2, run_mode, 0);
+        let t0 = Instant::now();
+        while !a.2.ran.load(Ordering::Acquire) && t0.elapsed() < Duration::from_secs(10) {
+            std::thread::yield_now();
+        }
+        actors.push(a);
+    }
+    let go = Gate::new();
+    let mut hs = vec![];
+    for (r, _, _, _) in &actors {
+        for _ in 0..threads {
+            let (r2, go) = (r.clone(), go.clone());
+            hs.push(std::thread::spawn(move || {
+                go.wait();
+                r2.kill().map_err(|e| format!("{e}"))
+            }));
+        }
+    }
+    go.release(hs.len());
+    for h in hs {
+        match h.join() {
+            Ok(Ok(())) => {}
+            Ok(Err(e)) => return bad("C06", "kill-failed", format!("kill() returned Err({e}) with {threads} thread(s) killing the same actor at once")),
+            Err(_) => return bad("C06", "kill-panicked", "a thread calling kill() panicked".to_string()),
+        }
+    }
+    for (i, (r, jh, sh, _tx)) in actors.into_iter().enumerate() {
+        let res = join(rt, jh);
+        drop(r);
+        match res {
+            None => return bad("C06", "killed-actor-did-not-end", format!("actor {i}: JoinHandle unresolved 10 s after kill() returned")),
+            Some(Err(e)) => return bad("C05", "result-wrong", format!("actor {i}: killed, no hook fails; JoinHandle reported {e}")),
+            Some(Ok(res)) => {
+                let stops = sh.on_stop.lock().unwrap().clone();
+                let ctx = format!("actor {i} ({} on_run) was ended by kill() from {threads} thread(s); nobody called stop() and a strong handle was held until after the join", if run_mode == 1 { "re-arming" } else { "idle" });
+                if stops != vec![true] && (!res.is_completed() || !res.was_killed()) {
+                    also("C04", "on-stop-calls-wrong", format!("{ctx}: on_stop calls were {stops:?}, expected exactly one with killed=true"));
+                }
+                if !res.is_completed() || !res.was_killed() {
+                    also("C06", "not-reported-killed", format!("{ctx}: result completed={} killed={}", res.is_completed(), res.was_killed()));
+                    return bad("C05", "result-wrong", format!("{ctx}: result completed={} killed={}, stopped_normally={}", res.is_completed(), res.was_killed(), res.stopped_normally()));
+                }
+                if stops != vec![true] {
+                    return bad("C04", "on-stop-calls-wrong", format!("{ctx}: on_stop calls were {stops:?}, expected exactly one with killed=true"));
                 }
             }
         }
@@ -700,6 +827,83 @@ fn ring_round(rt: &tokio::runtime::Runtime, rng: &mut Rng, cfg: &mut String) -> 
     None
 }
 
+/// A asks B from a handler; B tells itself `CallBack` and answers; B's `CallBack` then asks A.
+/// A's ask has been answered before B's begins, so there is never a cycle and nobody may panic -
+/// even while other threads keep the wait-for graph (and its lock) busy with asks of their own.
+#[cfg(feature = "deadlock-detection")]
+fn callback_round(rt: &tokio::runtime::Runtime, rng: &mut Rng, cfg: &mut String) -> Option<Bad> {
+    let noise_pairs = rng.below(4) as usize;
+    let iters = 5 + rng.below(30) as u32;
+    let cap = [2usize, 8][rng.below(2) as usize];
+    *cfg = format!("callback:noise{noise_pairs}:iters{iters}:cap{cap}");
+    let a = spawn_actor(rt, cap, 0, 0);
+    let b = spawn_actor(rt, cap, 0, 0);
+    *a.2.next.lock().unwrap() = Some(ActorRef::downgrade(&b.0));
+    *b.2.next.lock().unwrap() = Some(ActorRef::downgrade(&a.0));
+    // background load: pairs N1 -> N2, N1 loops asks from a handler
+    let mut noise = vec![];
+    let mut noise_asks = vec![];
+    for _ in 0..noise_pairs {
+        let n1 = spawn_actor(rt, 8, 0, 0);
+        let n2 = spawn_actor(rt, 8, 0, 0);
+        *n1.2.next.lock().unwrap() = Some(ActorRef::downgrade(&n2.0));
+        let r1 = n1.0.clone();
+        noise_asks.push(rt.spawn(async move { r1.ask(Loop(iters * 40)).await }));
+        noise.push(n1);
+        noise.push(n2);
+    }
+    let mut failure = None;
+    for i in 0..iters {
+        match rt.block_on(async { tokio::time::timeout(Duration::from_secs(10), a.0.ask(StartServe)).await }) {
+            Ok(Ok(1)) => {}
+            other => {
+                failure = Some(format!("iteration {i}: the outer ask returned {other:?}"));
+                break;
+            }
+        }
+        let t0 = Instant::now();
+        while b.2.callbacks.lock().unwrap().len() < (i + 1) as usize {
+            if t0.elapsed() > Duration::from_secs(10) || !b.0.is_alive() {
+                failure = Some(format!("iteration {i}: B's CallBack handler did not finish (B alive: {})", b.0.is_alive()));
+                break;
+            }
+            std::thread::yield_now();
+        }
+        if failure.is_some() {
+            break;
+        }
+        if b.2.callbacks.lock().unwrap().last() != Some(&1) {
+            failure = Some(format!("iteration {i}: B's ask to A ended as {:?}", b.2.callbacks.lock().unwrap().last()));
+            break;
+        }
+    }
+    for h in noise_asks {
+        let _ = rt.block_on(async { tokio::time::timeout(Duration::from_secs(20), h).await });
+    }
+    let mut panics = vec![];
+    let mut joins = vec![];
+    for (r, jh, sh, _tx) in [a, b].into_iter().chain(noise.into_iter()) {
+        *sh.next.lock().unwrap() = None;
+        let _ = r.kill();
+        joins.push(jh);
+    }
+    for jh in joins {
+        if let Some(Err(e)) = join(rt, jh) {
+            panics.push(e);
+        }
+    }
+    if failure.is_some() || !panics.is_empty() {
+        return bad("C15", "unjustified-deadlock-panic", format!("A asks B, B answers and only then (from its next message) asks A - no two asks are ever in flight against each other; {noise_pairs} other pair(s) of actors were asking each other on other threads. {} Actor panics: {panics:?}", failure.unwrap_or_default()));
+    }
+    None
+}
+
+#[cfg(not(feature = "deadlock-detection"))]
+fn callback_round(_rt: &tokio::runtime::Runtime, _rng: &mut Rng, cfg: &mut String) -> Option<Bad> {
+    *cfg = "callback:skipped-without-deadlock-detection".into();
+    None
+}
+
 #[cfg(not(feature = "deadlock-detection"))]
 fn ring_round(_rt: &tokio::runtime::Runtime, _rng: &mut Rng, cfg: &mut String) -> Option<Bad> {
     *cfg = "ring:skipped-without-deadlock-detection".into();
@@ -950,7 +1154,7 @@ fn metrics_round(_rt: &tokio::runtime::Runtime, _rng: &mut Rng, cfg: &mut String
 // ---------------------------------------------------------------------------------------------
 // driver
 // ---------------------------------------------------------------------------------------------
-pub const KINDS: [&str; 8] = ["drop", "burst", "parked", "stop", "ring", "metrics", "weakpin", "rearm"];
+pub const KINDS: [&str; 10] = ["drop", "burst", "parked", "stop", "ring", "metrics", "weakpin", "rearm", "killonly", "callback"];
 
 /// Which experiments the check of a property runs, and which clauses (properties) it reports: a
 /// round that breaks a clause of some *other* property is left to that property's own check.
@@ -958,13 +1162,15 @@ pub fn kinds_for(prop: &str) -> &'static [&'static str] {
     match prop {
         "C01" => &["burst", "parked", "drop"],
         "C02" => &["stop", "burst"],
-        "C04" | "C05" => &["drop", "stop"],
+        "C04" | "C05" => &["drop", "stop", "killonly"],
+        "C06" => &["killonly"],
         "C07" => &["drop", "stop", "weakpin"],
         "C11" | "C16" => &["weakpin"],
         "C08" => &["rearm"],
         "C09" => &["parked"],
         "C10" => &["parked"],
-        "C14" | "C15" => &["ring"],
+        "C14" => &["ring"],
+        "C15" => &["ring", "callback"],
         "C17" => &["burst", "parked"],
         "C20" => &["metrics"],
         _ => &[],
@@ -979,7 +1185,7 @@ fn reports(host: &str, clause: &str) -> bool {
 type Sink<'a> = &'a dyn Fn(&str, &str, &str, &str, serde_json::Value) -> String;
 
 fn run_kind(prop: &str, kind: &'static str, rng_seed: u64, rounds: u32, replay_out: &str, part: &mut Part, write_replay: Sink) -> i32 {
-    if kind == "ring" {
+    if kind == "ring" || kind == "callback" {
         // deadlock panics inside actor tasks are the expected outcome here; keep stderr quiet
         std::panic::set_hook(Box::new(|_| {}));
     }
@@ -995,6 +1201,8 @@ fn run_kind(prop: &str, kind: &'static str, rng_seed: u64, rounds: u32, replay_o
             "metrics" => metrics_round(&rt, &mut rng, &mut cfg),
             "weakpin" => weakpin_round(&rt, &mut rng, &mut cfg),
             "rearm" => rearm_round(&rt, &mut rng, &mut cfg),
+            "killonly" => killonly_round(&rt, &mut rng, &mut cfg),
+            "callback" => callback_round(&rt, &mut rng, &mut cfg),
             _ => stop_race_round(&rt, &mut rng, &mut cfg),
         };
         part.evaluations += 1;
@@ -1032,7 +1240,7 @@ pub fn run(prop: &str, kinds: &[&'static str], seed: u64, rounds: u32, replay_ou
     crate::trace::set_current(None);
     for (ki, kind) in kinds.iter().enumerate() {
         let mult = match *kind {
-            "drop" | "ring" => 10,
+            "drop" | "ring" | "killonly" => 10,
             "weakpin" => 20,
             "metrics" => 4,
             "stop" => 2,
